@@ -286,6 +286,15 @@ def gen_e2e(ctx):
                             yield Case(url, dials, sslopt=s2, env=env, isfile=isfile, isdir=isdir,
                                        proxy=("proxy.local", 3128, None) if tunnel else None, locations=locs,
                                        tag=f"e2e:{scheme}:{'tunnel' if tunnel else 'direct'}:{wrap}:{chain if chain == 'same-endpoint' else 'chain' if chain else 'one'}")
+                            if scheme == "wss" and envk is None and chain is not True:
+                                # a custom Host header (`host=` option: virtual hosting behind one address) names what the REQUEST
+                                # asks for; the peer that TLS authenticates is still the URL's host
+                                for hv in ("vhost.other.example", "vhost.other.example:8443"):
+                                    import copy
+                                    d2 = [DialSpec(list(d.events), tail=d.tail, addr=d.addr, wrap=d.wrap, rand=d.rand, sends_left=d.sends_left) for d in dials]
+                                    yield Case(url, d2, sslopt=s2, env=env, isfile=isfile, isdir=isdir, options={"host": hv},
+                                               proxy=("proxy.local", 3128, None) if tunnel else None, locations=locs,
+                                               tag=f"e2e:{scheme}:{'tunnel' if tunnel else 'direct'}:{wrap}:{'same-endpoint' if chain else 'one'}:host-option")
 
 
 def judge_order(ctx, case, run, spec_pol):
